@@ -69,6 +69,7 @@ def dump_consistent(ans):
 
 
 class C08(Prop):
+    named_errors = {"Null", "Bounds"}     # "a zero entry as null, an unknown name or out-of-range ordinal as null/bounds"
     pid = "C08"
     title = "export lookups agree with the export tables for every table shape"
     thm_modules = ["PeliteModel.Thm.C08"]
